@@ -121,8 +121,9 @@ Write(w, times) ==
         ELSE /\ wr' = [wr EXCEPT ![w] = w2] /\ UNCHANGED <<committed, domains>>
   /\ nextId' = nextId + 1 /\ res' = "ok"
 
+\* (an explicit Commit on an auto-commit writer is legal and finds nothing to commit)
 Commit(w) ==
-  /\ wr[w].open /\ ~wr[w].auto
+  /\ wr[w].open
   /\ IF wr[w].buf = {}
      THEN UNCHANGED <<committed, domains, wr>>
      ELSE LET r == DoCommit(w, committed, domains, wr[w].buf)
